@@ -682,6 +682,8 @@ def gen_mixed_portfolio(rng, kinds=ALL_KINDS, g=None, n_assets=(2, 6), n_nodes=(
             else:
                 b = gen_contract(rng, g, 'sc_base%d' % j, pick(rng, nodes), f, key, window=False, dict_caps=False)
             s, e, kk = gen_window(rng, g, kinds=['none', 'none', 'inside', 'straddle_end'])
+            if rng.random() < 0.4:
+                b['start'], b['end'], _kb = gen_window(rng, g, kinds=['inside', 'straddle_start', 'straddle_end', 'start_only', 'end_only'])      # the base's own lifetime
             assets.append({'type': 'ScaledAsset', 'name': 'sc%d' % j, 'base': b, 'min_scale': pick(rng, [0., 0.5]), 'max_scale': pick(rng, [1., 3.]),
                            'norm_scale': pick(rng, [1., 2.]), 'fix_costs': r2(pick(rng, [0., 0.1, 1.]) * f), 'start': s, 'end': e, 'wacc': 0.})
         elif ty == 'structured':
